@@ -264,6 +264,17 @@ def replay_linear(chk, rs, c, variants):
             if np.max(np.abs(p3 - (a * p1 + b * p2))) > TOL[prec] * sc_p:
                 _viol(chk, rs, c, "superposition", "conc of (a*q1+b*q2, a*c1+b*c2) differs from the combination by %.3e relative" % (np.max(np.abs(p3 - (a * p1 + b * p2))) / sc_p), a=a, b=b, **extra)
                 return
+        # homogeneity over many decades (the same emission map in other units): out(s*q, s*c) = s*out(q, c)
+        if not c["fp"]:
+            for sfac in (1e-7, 3e5):
+                _, ph, fh = rs.solve3(sfac * q1, kw, srf_bg_conc=sfac * c1)
+                sc_f = max(float(np.max(np.abs(f1))), 1e-300)
+                sc_p = max(float(np.max(np.abs(p1))), 1e-300)
+                dfh = float(np.max(np.abs(fh / sfac - f1))) / sc_f
+                dph = float(np.max(np.abs(ph / sfac - p1))) / sc_p
+                if dfh > TOL[prec] or dph > TOL[prec]:
+                    _viol(chk, rs, c, "homogeneity", "scaling source and background by %g does not scale the fields by the same factor (flux %.3e, conc %.3e relative)" % (sfac, dfh, dph), **extra)
+                    return
         # sources without net flux (a dipole, the zero field): the background must still reach every level
         if not c["fp"]:
             qd = np.zeros_like(q1)
